@@ -548,6 +548,8 @@ impl Store {
                                 .id(scru128::new())
                                 .ttl(TTL::Ephemeral)
                                 .build();
+                        #[cfg(xs_verif)]
+                        crate::verif::waiting(vhb.as_deref(), "send");
                         if heartbeat_tx.send(frame).await.is_err() {
                             #[cfg(xs_verif)]
                             {
@@ -561,7 +563,10 @@ impl Store {
                             break;
                         }
                         #[cfg(xs_verif)]
-                        crate::verif::emit(vhb.as_deref(), "hb.sent", serde_json::json!({}));
+                        {
+                            crate::verif::resumed(vhb.as_deref());
+                            crate::verif::emit(vhb.as_deref(), "hb.sent", serde_json::json!({}));
+                        }
                     }
                     #[cfg(xs_verif)]
                     crate::verif::finish(vhb.as_deref());
